@@ -264,11 +264,12 @@ var initAllowPrefixes = []string{
 
 func initAllow(path string) bool {
 	for _, p := range initAllowPrefixes {
-		if path == p || strings.HasPrefix(path, p+"/") {
-			if strings.HasPrefix(p, "github.com/") || strings.HasPrefix(p, "go.uber.org") || strings.HasPrefix(p, "golang.org") {
-				return true
-			}
-			return path == p
+		if path == p {
+			return true
+		}
+		if strings.HasPrefix(path, p+"/") &&
+			(strings.HasPrefix(p, "github.com/") || strings.HasPrefix(p, "go.uber.org") || strings.HasPrefix(p, "golang.org")) {
+			return true
 		}
 	}
 	return false
